@@ -137,17 +137,31 @@ pub fn generate(seed: u64, peers: &[String]) -> Trace {
         members.push((fr_from_le(&rng.bytes(32)), Fr::from(*rng.pick(&[1u64, 2, 100, 65535, 65536])), index));
     }
     let mut events = Vec::new();
-    for _ in 0..rng.usize_below(4) {
-        events.push(match rng.below(3) {
-            0 => Ev::Set { i: 1000 + rng.usize_below(5000), v: fr_from_le(&rng.bytes(32)) },
-            1 => Ev::Append { v: fr_from_le(&rng.bytes(32)) },
-            _ => Ev::Delete { i: rng.usize_below(6000) },
+    // leaf values include the default leaf (a write of zero still occupies the position) and boundary values
+    let val = |rng: &mut Prng| -> Fr {
+        match rng.weighted(&[2, 1, 1, 6]) {
+            0 => Fr::from(0u64),
+            1 => Fr::from(1u64),
+            2 => fr_minus_one(),
+            _ => fr_from_le(&rng.bytes(32)),
+        }
+    };
+    let mut touched: Vec<usize> = Vec::new();
+    for _ in 0..(1 + rng.usize_below(6)) {
+        events.push(match rng.below(4) {
+            0 => {
+                let i = *rng.pick(&[2usize, 3, 4, 5, 6, 1000 + rng.clone().usize_below(5000)]);
+                touched.push(i);
+                Ev::Set { i, v: val(&mut rng) }
+            }
+            1 | 2 => Ev::Append { v: val(&mut rng) },
+            _ => Ev::Delete { i: if touched.is_empty() || rng.chance(1, 3) { rng.usize_below(6000) } else { *rng.pick(&touched) } },
         });
     }
     for (s, l, i) in &members {
         events.push(Ev::Set { i: *i, v: rate_commitment(s, l) });
         if rng.chance(1, 2) {
-            events.push(Ev::Append { v: fr_from_le(&rng.bytes(32)) });
+            events.push(Ev::Append { v: val(&mut rng) });
         }
         if rng.chance(1, 3) {
             events.push(Ev::Delete { i: 1000 + rng.usize_below(5000) });
